@@ -70,7 +70,9 @@ fn prune_opts_seed(instant: bool, early: bool, seed: u64) -> PruneOptions {
         _ => ('0', '1'),
     };
     let unused = if (seed / 11) % 3 == 0 { "u" } else { "p0" };
-    parse_opts(&format!("0,0,0,00{all}0{i}{e}{fast},u,{unused}")).unwrap().opts
+    // keep-delete: 0 (packs marked by the earlier prune are removed now) or one day (they stay marked; unused packs are only marked)
+    let keep_delete = if (seed / 13) % 3 == 0 { 86_400 } else { 0 };
+    parse_opts(&format!("0,0,{keep_delete},00{all}0{i}{e}{fast},u,{unused}")).unwrap().opts
 }
 
 fn prune_opts(instant: bool) -> PruneOptions {
@@ -183,7 +185,8 @@ pub fn run_cmd(cmd: &str, seed: u64, h: &RepoHandle, scn: &Scn) -> RusticResult<
             let snaps: Vec<SnapshotFile> = live.iter().map(|l| l.0.clone()).collect();
             let glob = *Rng::new(seed ^ 0x7e).pick(&["!**/f1*", "!**/d1", "!**/sub", "!**/f2", "**/d0"]);
             let topts = RewriteTreesOptions::default().excludes(Excludes::default().globs(vec![glob.to_string()]));
-            r.rewrite_snapshots_and_trees(snaps, &RewriteOptions::default().forget(true), &topts).map(|_| ())
+            // with `forget` the rewritten snapshots replace the old ones (removals at the end), without they are added
+            r.rewrite_snapshots_and_trees(snaps, &RewriteOptions::default().forget(seed % 3 != 0), &topts).map(|_| ())
         }
         "keyrm" => h.open()?.delete_key(&scn.extra_key.expect("keyrm scenario has a key")),
         "forget" => {
